@@ -13,16 +13,21 @@ from vlib.runner import Fail, InvalidCase, Sub
 PROPERTY_ID = "C15"
 RULE = (
     "case = history over a TrackedDfg of width 0..6 (mixed copyable/linear inputs): track_inputs / track_wire / "
-    "track_wires / untrack_wire / add (mixed integer and wire arguments, optional metadata) / extend, ended by "
+    "track_wires / untrack_wire / add (mixed integer and wire arguments, optional metadata; ops with as many, more or "
+    "fewer outputs than inputs) / extend, ended by "
     "set_indexed_outputs or set_tracked_outputs; operands are selectors modulo the tracked indices / known wires. "
     "Oracle: the harness keeps the statement's reference table index -> wire and drives a plain Dfg with explicit "
     "wires in parallel; after every step `tracked` equals the table, at the end both HUGRs are equal node for node, "
-    "link for link (same indices, metadata) and serialize to the same JSON. Non-trivial = an add mixing an integer "
+    "link for link (same indices, metadata) and serialize to the same JSON; a step refused by one builder must be "
+    "refused with the same error by the other (ends the history). Non-trivial = an add mixing an integer "
     "and a wire argument after an untrack; distinct by canonical JSON."
 )
-ASSUMPTIONS = ["ops are drawn from a pool whose output count is >= the positions of their integer arguments (rebinding targets exist)"]
+ASSUMPTIONS = [
+    "an integer argument at a position >= the op's output count is rebound to the (non-existent) output at that position, as the "
+    "statement says; using such an index later must behave exactly like passing that port explicitly (same HUGR or the same error)"
+]
 
-OPS = {"noop": (1, 1), "c22": (2, 2), "c12": (1, 2), "c33": (3, 3), "c01": (0, 1)}
+OPS = {"noop": (1, 1), "c22": (2, 2), "c12": (1, 2), "c33": (3, 3), "c01": (0, 1), "c21": (2, 1), "c31": (3, 1), "c20": (2, 0)}
 TYPES = ["bool", "qubit", "unit"]
 
 
@@ -101,6 +106,24 @@ def check(case) -> list[Fail]:
             wires.append((n2.idx, k))
         return n2
 
+    def agree(ft, fd, what):
+        """Run the tracked and the explicit step; an error (only possible for wires that are not outputs
+        of their node) must be the same on both sides.  -> True when the history ends here."""
+        e1 = e2 = None
+        try:
+            ft()
+        except Exception as e:  # noqa: BLE001
+            e1 = e
+        try:
+            fd()
+        except Exception as e:  # noqa: BLE001
+            e2 = e
+        if e1 is None and e2 is None:
+            return False
+        if type(e1) is not type(e2):
+            fails.append(Fail(what, "error-agreement", f"tracked: {e1!r} explicit: {e2!r}"[:300]))
+        return True
+
     ended = False
     for s in case["steps"]:
         kind = s[0]
@@ -141,25 +164,45 @@ def check(case) -> list[Fail]:
             planned = do_add(s[1], s[2], s[3])
             if planned is None:
                 continue
-            n1 = t.add(mk_op(planned[0])(*planned[1]), metadata=planned[4])
-            n2 = apply_add(planned)
+            e1 = e2 = None
+            try:
+                n1 = t.add(mk_op(planned[0])(*planned[1]), metadata=planned[4])
+            except Exception as e:  # noqa: BLE001
+                e1 = e
+            try:
+                n2 = apply_add(planned)
+            except Exception as e:  # noqa: BLE001
+                e2 = e
+            if e1 is not None or e2 is not None:
+                # only wires that are not outputs of their node can be refused; both builders must agree
+                if type(e1) is not type(e2):
+                    fails.append(Fail("add", "error-agreement", f"tracked: {e1!r} explicit: {e2!r}"[:300]))
+                return fails
             if n1.idx != n2.idx:
                 fails.append(Fail("add", "node-index", f"{n1} vs {n2}"))
         elif kind == "extend":
-            plans = []
-            # plan sequentially against a copy of the table (each command sees earlier rebinds)
+            # plan sequentially (each command sees earlier rebinds); the plain builder advances while planning
             coms = []
+            e1 = e2 = None
             for opn, args in s[1]:
                 planned = do_add(opn, args, None)
                 if planned is None:
                     break
-                plans.append(planned)
                 coms.append(mk_op(opn)(*planned[1]))
-                # simulate rebinding for planning the following commands
-                apply_add(planned)
+                try:
+                    apply_add(planned)
+                except Exception as e:  # noqa: BLE001
+                    e2 = e
+                    break
             if coms:
-                # apply_add already advanced the plain builder; run the tracked one now
-                ns = t.extend(*coms)
+                try:
+                    ns = t.extend(*coms)
+                except Exception as e:  # noqa: BLE001
+                    e1 = e
+                if e1 is not None or e2 is not None:
+                    if type(e1) is not type(e2):
+                        fails.append(Fail("extend", "error-agreement", f"tracked: {e1!r} explicit: {e2!r}"[:300]))
+                    return fails
                 if len(ns) != len(coms):
                     fails.append(Fail("extend", "node-count", f"{len(ns)}"))
         elif kind in ("set_indexed_outputs", "set_tracked_outputs"):
@@ -168,11 +211,11 @@ def check(case) -> list[Fail]:
                 if r is None:
                     continue
                 targs, xw, _ = r
-                t.set_indexed_outputs(*targs)
-                d.set_outputs(*[W(w) for w in xw])
+                err = agree(lambda: t.set_indexed_outputs(*targs), lambda: d.set_outputs(*[W(w) for w in xw]), kind)
             else:
-                t.set_tracked_outputs()
-                d.set_outputs(*[W(w) for w in table if w is not None])
+                err = agree(lambda: t.set_tracked_outputs(), lambda: d.set_outputs(*[W(w) for w in table if w is not None]), kind)
+            if err:
+                return fails
             ended = True
         else:
             raise InvalidCase(kind)
@@ -182,8 +225,8 @@ def check(case) -> list[Fail]:
         if ended:
             break
     if not ended:
-        t.set_tracked_outputs()
-        d.set_outputs(*[W(w) for w in table if w is not None])
+        if agree(lambda: t.set_tracked_outputs(), lambda: d.set_outputs(*[W(w) for w in table if w is not None]), "set_tracked_outputs"):
+            return fails
     st_, sd = store.snapshot(t.hugr), store.snapshot(d.hugr)
     if st_[0] != sd[0]:
         diff = [i for i in sorted(set(st_[0]) | set(sd[0])) if st_[0].get(i) != sd[0].get(i)]
